@@ -15,3 +15,61 @@ def small_buffers(rng, tier):
     for _ in range(n):
         ln = rng.randint(0, maxlen)
         yield bytes(rng.getrandbits(8) for _ in range(ln))
+
+
+# ---- packet streams and finite sources (E1) for the framer ------------------------------------------------------------
+def make_packet(rng, dlen=None, apid=None, seqflags=None, seqcount=None, shf=0, fill=None):
+    """a CCSDS packet built from the layout definition (NOT with the repository's constructor)"""
+    dlen = dlen if dlen is not None else rng.choice([1, 1, 2, 3, 7, 8, 20, 255, 256, 257, 512, 1024])
+    v, t = rng.randint(0, 7), rng.randint(0, 1)
+    apid = rng.randint(0, 2047) if apid is None else apid
+    f = rng.randint(0, 3) if seqflags is None else seqflags
+    c = rng.randint(0, 16383) if seqcount is None else seqcount
+    word = (v << 45) | (t << 44) | (shf << 43) | (apid << 32) | (f << 30) | (c << 16) | (dlen - 1)
+    data = bytes(rng.getrandbits(8) for _ in range(min(dlen, 40))) + bytes(max(0, dlen - 40)) if fill is None else fill
+    return word.to_bytes(6, 'big') + data
+
+
+def build_source(kind, T, frag, r=None):
+    """a bytes object, a file-like object or a socket that delivers T in the fragmentation `frag` (cyclic list of
+    maximum chunk sizes; empty = as much as asked)"""
+    import io
+    import socket
+    if kind == 'bytes':
+        return T
+
+    class FragFile(io.BytesIO):
+        ghost_T = T
+
+        def __init__(self):
+            super().__init__(T)
+            self._i = 0
+
+        def read(self, n=-1):
+            if frag and n is not None and n > 0:
+                n = max(1, min(n, frag[self._i % len(frag)]))
+                self._i += 1
+            return super().read(n)
+
+    class FragSocket(socket.socket):
+        ghost_T = T
+
+        def __init__(self):
+            super().__init__()
+            self._pos = 0
+            self._i = 0
+
+        def recv(self, n, *a):
+            if n <= 0:
+                raise ValueError("negative buffersize in recv")
+            if frag:
+                n = max(1, min(n, frag[self._i % len(frag)]))
+                self._i += 1
+            out = T[self._pos:self._pos + n]
+            self._pos += len(out)
+            return out
+
+        @property
+        def ghost_R(self):
+            return self._pos
+    return FragFile() if kind == 'file' else FragSocket()
